@@ -37,7 +37,7 @@
 (* un-suffixed operators use the table every fresh test key builder starts with  *)
 (* (BaseFt).  ExprSyntaxHist.tla puts the compiler into a state machine whose    *)
 (* table changes (KeyBuilder.Func) between Compile calls.                        *)
-EXTENDS Bytes, TLC
+EXTENDS Bytes, TLC, ExprSyntaxIdx
 
 BSL == 92     \* backslash
 LBR == 123    \* {
@@ -64,7 +64,8 @@ KeyN(s)        == N("key", s, 0, <<>>)
 CallN(f, args) == N("call", f, 0, args)
 CallV(f, v, args) == N("call", f, v, args)     \* a call bound to version v of f
 CatN(parts)    == N("cat", <<>>, 0, parts)     \* an argument compiled to several stages (joinStages)
-BigN(s)        == N("big", s, 0, <<>>)         \* an integer beyond the 9 digits this model computes with
+BigN(s)        == N("big", s, 0, <<>>)         \* a group reference whose index (s: canonical signed decimal) has more than
+                                               \* the 9 digits TLC's integers hold (ExprSyntaxIdx.tla decides the range)
 EmptyN         == N("empty", <<>>, 0, <<>>)    \* malformation: a statement without content
 QtN(parts)     == N("qt", <<>>, 0, parts)      \* printer only: a quoted argument holding text and statements
 
@@ -84,23 +85,30 @@ KC == 57352
 FV == 57353
 IsMarker(c) == c >= 57344 /\ c <= 57599
 
-RECURSIVE SpellN(_)
-RECURSIVE SpellArgs(_, _)
-RECURSIVE SpellSeq(_, _)
-SpellN(x) ==
+(* SpellT(st, tag): the rendering against the recording context of the evaluator   *)
+(* `tag` (ExprSyntaxEval.tla: every concurrent evaluation has its own context;   *)
+(* GetMatch(i) answers GO i tag GC, GetKey(k) KO k tag KC); Spell = the untagged  *)
+(* context of a single evaluation.                                               *)
+RECURSIVE SpellNT(_, _)
+RECURSIVE SpellArgsT(_, _, _)
+RECURSIVE SpellSeqT(_, _, _)
+SpellNT(x, tag) ==
   CASE x.k = "lit"  -> x.s
-    [] x.k = "grp"  -> <<GO>> \o Itoa(x.n) \o <<GC>>
-    [] x.k = "key"  -> <<KO>> \o x.s \o <<KC>>
+    [] x.k = "grp"  -> <<GO>> \o Itoa(x.n) \o tag \o <<GC>>
+    [] x.k = "big"  -> <<GO>> \o x.s \o tag \o <<GC>>
+    [] x.k = "key"  -> <<KO>> \o x.s \o tag \o <<KC>>
     [] x.k = "call" -> <<FO>> \o x.s \o (IF x.n = 0 THEN <<>> ELSE <<FV>> \o Itoa(x.n)) \o <<FA>>
-                       \o SpellArgs(x.args, 1) \o <<FC>>
-    [] x.k = "cat"  -> SpellSeq(x.args, 1)
+                       \o SpellArgsT(x.args, 1, tag) \o <<FC>>
+    [] x.k = "cat"  -> SpellSeqT(x.args, 1, tag)
     [] OTHER        -> <<>>
-SpellArgs(args, j) ==
+SpellArgsT(args, j, tag) ==
   IF j > Len(args) THEN <<>>
-  ELSE IF j = Len(args) THEN SpellN(args[j])
-  ELSE SpellN(args[j]) \o <<FS>> \o SpellArgs(args, j + 1)
-SpellSeq(st, j) == IF j > Len(st) THEN <<>> ELSE SpellN(st[j]) \o SpellSeq(st, j + 1)
-Spell(st) == SpellSeq(st, 1)
+  ELSE IF j = Len(args) THEN SpellNT(args[j], tag)
+  ELSE SpellNT(args[j], tag) \o <<FS>> \o SpellArgsT(args, j + 1, tag)
+SpellSeqT(st, j, tag) == IF j > Len(st) THEN <<>> ELSE SpellNT(st[j], tag) \o SpellSeqT(st, j + 1, tag)
+SpellT(st, tag) == SpellSeqT(st, 1, tag)
+SpellN(x) == SpellNT(x, <<>>)
+Spell(st) == SpellSeqT(st, 1, <<>>)
 
 \* ------------------------------------------------------------------ normal form
 (* Adjacent literal stages are indistinguishable (and merged by the optimiser),  *)
@@ -136,6 +144,9 @@ NormSeq(st) == MergeL([j \in 1..Len(st) |-> NormNode(st[j])], 1, <<>>)
 (*    written as they are, and statements without any quote inside)              *)
 (*   esc          top-level literal: 1 = this character is written with `\`      *)
 (*   drop         statement: malformation, the closing brace is missing          *)
+(*   (kind "grp" with s # <<>>: the integer is written as the digit string s -    *)
+(*    leading zeros, a minus sign, any number of digits; whether it IS a group     *)
+(*    reference is decided by its value, ExprSyntaxIdx.tla)                        *)
 AN(k, s, n, args, sep, lead, trail, q, esc, drop) ==
   [k |-> k, s |-> s, n |-> n, args |-> args, sep |-> sep, lead |-> lead, trail |-> trail,
    q |-> q, esc |-> esc, drop |-> drop]
@@ -155,7 +166,7 @@ RECURSIVE PrintN(_, _)
 PrintN(a, top) ==
   CASE a.k = "lit"   -> IF top THEN EscapeP(a.s, a.esc)
                         ELSE IF a.q THEN <<QUO>> \o a.s \o <<QUO>> ELSE a.s
-    [] a.k = "grp"   -> <<LBR>> \o a.lead \o Itoa(a.n) \o a.trail \o CloseOf(a)
+    [] a.k = "grp"   -> <<LBR>> \o a.lead \o (IF a.s = <<>> THEN Itoa(a.n) ELSE a.s) \o a.trail \o CloseOf(a)
     [] a.k = "key"   -> <<LBR>> \o a.lead \o a.s \o a.trail \o CloseOf(a)
     [] a.k = "empty" -> <<LBR>> \o a.lead \o CloseOf(a)
     [] a.k = "call"  -> <<LBR>> \o a.lead \o a.s
@@ -169,7 +180,9 @@ PrintN(a, top) ==
 PrintTpl(tpl) == Flatten([j \in 1..Len(tpl) |-> PrintN(tpl[j], TRUE)])
 
 \* ---- the documented domain
-Blank(w) == \A i \in 1..Len(w) : w[i] \in {SP, TAB}
+\* white space: every character the property's "whitespace" covers - the Unicode White_Space characters the
+\* unchanged tokenizer (argSplitter.go: unicode.IsSpace) separates arguments on, not only space and tab
+Blank(w) == \A i \in 1..Len(w) : IsSpaceU(w[i])
 IsSpecial(c) == c \in {QUO, LBR, RBR, BSL}
 IsChar(c) == c >= 1 /\ c <= 1114111 /\ ~(c >= 55296 /\ c <= 57343) /\ ~IsMarker(c)
 PlainChar(c) == IsChar(c) /\ ~IsSpecial(c)
@@ -186,7 +199,7 @@ RECURSIVE WFStmt(_)
 RECURSIVE WFArg(_)
 WFStmt(a) ==
   /\ Blank(a.lead) /\ Blank(a.trail) /\ a.drop \in BOOLEAN
-  /\ CASE a.k = "grp"   -> a.n >= 0 /\ a.n <= 999999999
+  /\ CASE a.k = "grp"   -> IF a.s = <<>> THEN a.n >= 0 /\ a.n <= 999999999 ELSE a.n = 0 /\ IxIntWord(a.s)
        [] a.k = "key"   -> KeyWord(a.s)
        [] a.k = "empty" -> a.trail = <<>>
        [] a.k = "call"  -> /\ Word(a.s)
@@ -272,10 +285,18 @@ ErrLower(tpl) == ErrLowerF(tpl, Funcs)
 ErrLowCnts(tpl) == ErrLowCntsF(tpl, Funcs)
 
 \* ---- the tree a printed template denotes
+\* index width of the implementation's integers (Go int on the 64-bit platforms rare is built for)
+IdxWidth == 64
+\* a decision of ExprSyntaxIdx as a node
+IxNodeOf(r) ==
+  IF ~r.grp THEN KeyN(r.s)
+  ELSE IF Len(r.s) - (IF r.s[1] = 45 THEN 1 ELSE 0) <= 9 THEN GrpN(ParseIntVal(r.s)) ELSE BigN(r.s)
+\* a written integer denotes the group of that number if the number is an index at all, else it is a word: a key
+WrittenInt(s) == IxNodeOf(IxDenote(s, IdxWidth))
 RECURSIVE StripN(_)
 StripN(a) ==
   CASE a.k = "lit"  -> LitN(a.s)
-    [] a.k = "grp"  -> GrpN(a.n)
+    [] a.k = "grp"  -> IF a.s = <<>> THEN GrpN(a.n) ELSE WrittenInt(a.s)
     [] a.k = "key"  -> KeyN(a.s)
     [] a.k = "call" -> CallN(a.s, [j \in 1..Len(a.args) |-> StripN(a.args[j])])
     [] a.k = "qt"   -> CatN([j \in 1..Len(a.args) |-> StripN(a.args[j])])
@@ -285,7 +306,7 @@ StripT(tpl) == NormSeq([j \in 1..Len(tpl) |-> StripN(tpl[j])])
 RECURSIVE StripNF(_, _)
 StripNF(a, ft) ==
   CASE a.k = "lit"  -> LitN(a.s)
-    [] a.k = "grp"  -> GrpN(a.n)
+    [] a.k = "grp"  -> IF a.s = <<>> THEN GrpN(a.n) ELSE WrittenInt(a.s)
     [] a.k = "key"  -> KeyN(a.s)
     [] a.k = "call" -> CallV(a.s, IF a.s \in DOMAIN ft THEN ft[a.s] ELSE 0, [j \in 1..Len(a.args) |-> StripNF(a.args[j], ft)])
     [] a.k = "qt"   -> CatN([j \in 1..Len(a.args) |-> StripNF(a.args[j], ft)])
@@ -316,10 +337,10 @@ SLoop(s, i, args, sb, td, quoted, escaped) ==
     ELSE SLoop(s, i + 1, args, sb, td, quoted, FALSE)
 SplitM(s) == SLoop(s, 1, <<>>, <<>>, 0, FALSE, FALSE)
 
-\* ---- stage.go stageSimpleVariable: an integer is a match group, anything else a key
-NumDigits(s) == Cardinality({i \in 1..Len(s) : IsDigit(s[i])})
-SimpleVarM(s) ==
-  IF ParseIntOK(s) THEN (IF NumDigits(s) <= 9 THEN GrpN(ParseIntVal(s)) ELSE BigN(s)) ELSE KeyN(s)
+\* ---- stage.go stageSimpleVariable: an integer is a match group, anything else a key.  "Integer" is strconv.Atoi's
+\* verdict, transcribed for digit strings of any length in ExprSyntaxIdx.tla (IxAtoi: accumulator with a range check
+\* at every step, width IdxWidth); a number that is out of range is a key like any other word.
+SimpleVarM(s) == IxNodeOf(IxAtoi(s, IdxWidth))
 
 ErrText(name) == <<60, 69, 114, 114, 58>> \o name \o <<62>>      \* <Err:name>
 
